@@ -80,7 +80,15 @@ var listErrFlavours = []listErrFlavour{
 	// controller's cache (a derived controller) fails like this once that controller has stopped
 	{"kcache.ErrNotRunning", kcache.ErrNotRunning},
 	{"wrapped kcache.ErrNotRunning", pkgerrors.Wrap(pkgerrors.WithStack(kcache.ErrNotRunning), "upstream cache")},
+	// generated client-go clients return their (empty) result object together with the error
+	{"plain, with an empty list object", errInjected2},
+	{"status 500, with an empty list object", apierrors.NewInternalError(errors.New("injected (list object returned as well)"))},
 }
+
+var errInjected2 = errors.New("injected list failure (an empty list object is returned as well)")
+
+// listErrWithObject: flavours whose failing List() returns a non-nil, empty list next to the error.
+var listErrWithObject = map[string]bool{"plain, with an empty list object": true, "status 500, with an empty list object": true}
 var errWatchInjected = errors.New("injected watch connect failure")
 
 type listFault string
@@ -328,6 +336,9 @@ func (a *fakeAPI) render(s snapshot) runtime.Object {
 func (a *fakeAPI) faultResult(f listFault) (runtime.Object, error) {
 	switch f {
 	case lfError:
+		if listErrWithObject[a.listErr.name] {
+			return &corev1.PodList{}, a.listErr.err
+		}
 		return nil, a.listErr.err
 	case lfNilNil:
 		return nil, nil
